@@ -253,6 +253,7 @@ class FlowFamily(ScenarioFamily):
                                       "framings": ["cl"], "body_len": nd})
             plan["think"] = r.choice([0.0, 0.05, 0.3])
             plan["h2_frame"] = r.choice([0, 100, 16384])
+            plan["h2_pad"] = r.choice([0, 0, 17, 255])
             callers.append({"start": 0.0, "ops": [
                 {"op": "request", "token": tok, "url": f"{scheme}://a.test/t/{tok}", "resp": plan,
                  "consume": r.choice(["all", {"slow": 0.01}]),
@@ -261,18 +262,63 @@ class FlowFamily(ScenarioFamily):
                "net": {"latency": r.choice(["zero", "fixed", "small"]),
                        "seg": r.choice(["whole", "random", "segment"]),
                        "endpoints": {f"a.test:{port}": ep}},
-               "callers": callers, "epilogue": ["close_pool"], "step_cap": 400000}
+               "callers": callers, "epilogue": ["observe", "close_pool"], "step_cap": 400000}
         if self.ex == "asyncio":
             scn["sched"] = r.choice(["fifo", "shuffle"])
         else:
             scn["policy"] = {"mode": "ops", "op_p": 0.5}
         return scn
 
+    def observers(self, scn):
+        return [CreditObserver()]
+
     def post(self, res, scn):
         flow_oracle(res, scn)
 
     def nontrivial(self, res, scn):
         return True
+
+
+class CreditObserver:
+    """'The client returns flow-control credit for every DATA frame it consumes': once
+    every response has been read completely, the connection-level receive window of the
+    client's h2 state machine must be fully re-credited (current window + bytes processed
+    but not yet announced == maximum window).  Reads h2 internals through guarded
+    getattr: if they are missing the check is skipped and counted."""
+
+    def setup(self, world, pool):
+        self.w = world
+        self.pool = pool
+        self.bad = None
+
+    def observe(self, where):
+        seen = set()
+        stack = list(self.pool.connections)
+        while stack:
+            o = stack.pop()
+            if id(o) in seen:
+                continue
+            seen.add(id(o))
+            st = getattr(o, "_h2_state", None)
+            if st is not None:
+                wm = getattr(st, "_inbound_flow_control_window_manager", None)
+                cur = getattr(wm, "current_window_size", None)
+                mx = getattr(wm, "max_window_size", None)
+                proc = getattr(wm, "_bytes_processed", None)
+                if None in (cur, mx, proc):
+                    self.w.probes["credit_check_skipped_h2_internals_missing"] += 1
+                    continue
+                self.w.probes["credit_check_done"] += 1
+                if cur + proc != mx:
+                    self.bad = {"current": cur, "processed": proc, "max": mx,
+                                "missing": mx - cur - proc}
+                continue
+            d = getattr(o, "__dict__", None)
+            if d and (type(o).__module__ or "").startswith("httpcore"):
+                stack.extend(v for v in d.values() if hasattr(v, "__dict__") and not isinstance(v, type))
+
+    def post(self, res):
+        res.info["credit"] = self.bad
 
 
 class BigDownloadFamily(ScenarioFamily):
@@ -291,6 +337,12 @@ class BigDownloadFamily(ScenarioFamily):
         plan = {"status": 200, "reason": b"OK", "framing": "cl", "body_len": n,
                 "headers": [[b"content-length", b"%d" % n], [b"x-echo-token", tok.encode()]],
                 "header_lines": [], "h2_frame": r.choice([0, 16384])}
+        if index % 4 == 3 and tier == "thorough":
+            # padded DATA: padding and the pad-length byte count against the windows, so
+            # 70000 one-byte frames with 255 bytes of padding use 17.9 MB of credit
+            n = 70000
+            plan.update(body_len=n, h2_frame=1, h2_pad=255,
+                        headers=[[b"content-length", b"%d" % n], [b"x-echo-token", tok.encode()]])
         callers = [{"ops": [{"op": "request", "token": tok, "url": "https://a.test/t/big0",
                              "resp": plan, "timeouts": {"read": 30.0, "write": 30.0}}]}]
         if r.random() < 0.5:
@@ -357,6 +409,10 @@ def flow_oracle(res, scn):
             w.violate("C13", "upload-body-altered", {"token": tok, "got": e and e[8], "want": len(body)})
             return
     oracles.token_oracle(res, "C13")
+    bad = res.info.get("credit")
+    if bad and not w.violations and not res.error and not w.stats_faulty and \
+            all(o.get("complete") for o in res.outcomes.values()):
+        w.violate("C13", "credit-not-returned-for-consumed-data", bad)
 
 
 register("C12", {
